@@ -75,9 +75,11 @@ type Step struct {
 }
 
 type Case struct {
-	ID    int    `json:"id"`
-	Init  State  `json:"init"`
-	Steps []Step `json:"steps"`
+	Kind   string `json:"kind"` // "" (a walk of Privacy.tla) or "bigreply"
+	NPeers int    `json:"npeers"`
+	ID     int    `json:"id"`
+	Init   State  `json:"init"`
+	Steps  []Step `json:"steps"`
 }
 
 type Viol struct {
@@ -118,6 +120,9 @@ type world struct {
 	hash  hash.Hash
 	t     *tor.Torrent
 	proxy bool
+	// bigreply: the tracker answers with this many peers, once bigGo is closed
+	big   int
+	bigGo chan struct{}
 }
 
 func (w *world) add(o string) {
@@ -182,6 +187,14 @@ func (h handler) ServeHTTP(rw http.ResponseWriter, r *http.Request) {
 			w.add("peer:ipv6")
 		}
 		body := "d8:intervali1800e5:peers0:e"
+		if w.big > 0 {
+			<-w.bigGo
+			var pb []byte
+			for k := 0; k < w.big; k++ {
+				pb = append(pb, 198, 18, byte(k>>8), byte(k), 0x1a, 0xe1)
+			}
+			body = fmt.Sprintf("d8:intervali1800e5:peers%d:%se", len(pb), pb)
+		}
 		rw.Header().Set("Content-Length", strconv.Itoa(len(body)))
 		rw.Write([]byte(body))
 	case strings.HasPrefix(r.URL.Path, "/seed/"):
@@ -834,6 +847,112 @@ func (w *world) dropPeers() {
 	}
 }
 
+// runBigReply (C15, at the level of the torrent): a tracker reply with more
+// peers than the torrent's event queue has room for, arriving while the event
+// loop is busy.  Exactly the peers encoded in the reply are learnt.
+func runBigReply(c *Case, out *Out) {
+	config.SetDefaultProxy("")
+	config.SetExternalIPv4Port(extTCP, true)
+	config.SetIdleRate(0)
+	tor.VerifManualTicks = true
+	w := &world{seed: uint64(c.ID) + 23, name: "big.bin", big: c.NPeers, bigGo: make(chan struct{})}
+	w.total = 4 * 2 * CS
+	var err error
+	w.lnA, err = net.Listen("tcp4", "127.0.0.1:0")
+	if err != nil {
+		out.Note = err.Error()
+		return
+	}
+	defer w.lnA.Close()
+	srv := &http.Server{Handler: handler{w, "direct"}}
+	go srv.Serve(w.lnA)
+	defer srv.Close()
+	config.DefaultUseTrackers, config.DefaultUseWebseeds, config.DefaultDhtMode = true, false, dhtMode("none")
+	t, err := mktor.New(mktor.Spec{Name: w.name, PieceLen: 2 * CS, Length: w.total, Seed: w.seed, Trackers: []string{"http://" + w.lnA.Addr().String() + "/announce"}}, "")
+	if err != nil {
+		out.Note = err.Error()
+		return
+	}
+	var slowTicks int32
+	tor.VerifYield = func(point string) {
+		if point == "run.slowtick" {
+			atomic.AddInt32(&slowTicks, 1)
+		}
+	}
+	defer func() { tor.VerifYield = nil }()
+	ctx, cancel := context.WithCancel(context.Background())
+	defer cancel()
+	t, err = tor.AddTorrent(ctx, t)
+	if err != nil {
+		out.Note = err.Error()
+		return
+	}
+	w.t = t
+	defer func() {
+		k, c2 := context.WithTimeout(context.Background(), 5*time.Second)
+		t.Kill(k)
+		c2()
+		tor.VerifForget(t)
+	}()
+	for n := 0; n < 500 && !tor.VerifTickersReady(t); n++ {
+		time.Sleep(2 * time.Millisecond)
+	}
+	// one slow tick: the announce starts and reaches the tracker, which holds its reply
+	w.parked(func() { tor.VerifTick(t, true) })
+	for n := 0; n < 5000 && atomic.LoadInt32(&slowTicks) == 0; n++ {
+		time.Sleep(time.Millisecond)
+	}
+	w.parked(func() { tor.VerifTick(t, false) })
+	dl := time.Now().Add(6 * time.Second)
+	for time.Now().Before(dl) && !w.has("tracker:port") && !w.has("tracker:noport") {
+		time.Sleep(5 * time.Millisecond)
+	}
+	if !w.has("tracker:port") && !w.has("tracker:noport") {
+		// the handler records the contact only after bigGo; look at the tracker instead
+	}
+	// keep the loop busy (parked between two events) while the reply is delivered
+	g1, g2 := make(chan *peer.TorStats), make(chan *peer.TorStats)
+	t.Event <- peer.TorGetStats{Ch: g1}
+	t.Event <- peer.TorGetStats{Ch: g2}
+	<-g1
+	close(w.bigGo)
+	time.Sleep(400 * time.Millisecond) // the reply is parsed; the queue (512 slots) fills
+	<-g2
+	// the announce ends, the loop handles what was queued
+	for n := 0; n < 1500; n++ {
+		if st, _ := t.Trackers()[0][0].GetState(); st == tracker.Idle || st == tracker.Error {
+			break
+		}
+		time.Sleep(10 * time.Millisecond)
+	}
+	w.barrier()
+	kps, err := t.GetKnowns()
+	if err != nil {
+		out.Note = "GetKnowns: " + err.Error()
+		return
+	}
+	got := map[netip.AddrPort]bool{}
+	for _, kp := range kps {
+		got[kp.Addr] = true
+	}
+	missing, extra := 0, 0
+	for k := 0; k < c.NPeers; k++ {
+		a := netip.AddrPortFrom(netip.AddrFrom4([4]byte{198, 18, byte(k >> 8), byte(k)}), 0x1ae1)
+		if !got[a] {
+			missing++
+		}
+		delete(got, a)
+	}
+	extra = len(got)
+	if st, terr := t.Trackers()[0][0].GetState(); st != tracker.Idle {
+		out.Nonconf = append(out.Nonconf, fmt.Sprintf("the tracker is in state %v (%v) after the announce", st, terr))
+	}
+	if missing > 0 || extra > 0 {
+		out.Violations = append(out.Violations, Viol{"peers-lost", fmt.Sprintf("the tracker's reply encodes %d peers and arrived while the event loop was busy: %d of them were never learnt by the torrent, %d unknown ones were", c.NPeers, missing, extra)})
+	}
+	out.Seen = []string{fmt.Sprintf("known=%d", len(kps))}
+}
+
 // Handle is the worker-side entry point.
 func Handle(in []byte) any {
 	var c Case
@@ -841,6 +960,10 @@ func Handle(in []byte) any {
 		return &Out{Note: "bad case: " + err.Error()}
 	}
 	out := &Out{ID: c.ID}
+	if c.Kind == "bigreply" {
+		runBigReply(&c, out)
+		return out
+	}
 	runCase(&c, out)
 	return out
 }
